@@ -20,6 +20,7 @@ type frame struct {
 	conts     map[string][]*State
 	defers    []deferred
 	loopOrd   int
+	loopDepth int // > 0 while a loop body of this frame is being executed
 	labels    map[ast.Stmt]string // loop statement -> label
 	closure   bool
 	entry     *State // state at entry (for __old inside inlined callee specs; unused)
@@ -29,6 +30,9 @@ type frame struct {
 type deferred struct {
 	call *ast.CallExpr
 	args []Term
+	// armed: ghost boolean, true on the paths that executed the defer statement (a defer statement inside an if, or
+	// after an early return, is not registered on the other paths); nil = registered inside a loop: runs on every path
+	armed types.Object
 }
 
 type visInfo struct {
@@ -97,6 +101,7 @@ type Exec struct {
 	tainted map[types.Object]bool // slice variables that may share their backing array with a caller's slice
 	aliasN  int
 	keepVar map[types.Object]bool // function-level locals mentioned in ensures clauses: kept across merges
+	armedVar map[types.Object]bool // ghost flags of defer statements: false on a path that did not set them
 	calledObj map[string]types.Object   // callee name -> ghost "has been called" flag
 	lockObj   map[string]types.Object   // text of a mutex expression the function locks -> ghost depth counter (Lock +1, Unlock -1)
 	lastRetObj map[string][]types.Object // callee name -> ghost copies of the results of the last call
